@@ -7,5 +7,5 @@ W=$(mktemp -d /tmp/vsetup.XXXXXX); trap 'rm -rf "$W"' EXIT
 cp spec/*.tla "$W"/
 for f in spec/*.tla; do (cd "$W" && timeout 120 tla-sany "$(basename $f)" >/dev/null 2>&1) || { echo "SANY failed on $f"; exit 1; }; done
 cp /repo/go.sum harness/go.sum
-(cd harness && go1.26.8 vet -tags verif ./... && go1.26.8 test -tags verif -count=1 -run '^$' ./... >/dev/null)
+(cd harness && go1.26.8 vet -structtag=false -tags verif ./... && go1.26.8 test -tags verif -count=1 -run '^$' ./... >/dev/null)
 echo setup ok
